@@ -87,10 +87,16 @@ func runC11(c *gen.Ctx) error {
 	// that outlasts the 5 s grace period) take seconds: they run beside everything else
 	inFast, inSlow := c11InProcScenarios(c)
 	var bg sync.WaitGroup
-	bg.Add(2)
+	wire := c11WireScenarios(c)
+	bg.Add(3)
 	go func() {
 		defer bg.Done()
 		c.DoParallel("oscmd", oscmdServerScenarios(c), 4)
+	}()
+	go func() {
+		// each in a child process: the death of the runner is an observation
+		defer bg.Done()
+		c.DoParallel("wire", wire, 6)
 	}()
 	go func() {
 		defer bg.Done()
